@@ -869,6 +869,26 @@ def b_int(ip: Any, x: Any = 0, base: Any = 10) -> Any:
     raise raise_(ip, TypeError, "int() argument must be a string, a bytes-like object or a real number")
 
 
+def b_checksum(name: str) -> Any:
+    """zlib.crc32 / zlib.adler32 / binascii.crc32 on symbolic bytes: a deterministic function into [0, 2**32) about
+    which nothing else is known - in particular it is NOT injective (4 bytes of output)."""
+
+    def f(ip: Any, data: Any, *start: Any) -> Any:
+        if not V.contains_sym(data) and not V.contains_sym(start):
+            import binascii
+            import zlib
+
+            return {"crc32": zlib.crc32, "adler32": zlib.adler32, "b_crc32": binascii.crc32}[name](data, *start)
+        if start:
+            raise Unsupported(f"{name} with a running value")
+        fn = z3.Function(f"py_{name}", z3.StringSort(), z3.IntSort())
+        r = fn(V.bytesterm(data))
+        ip.S.assume(z3.And(r >= 0, r < 2**32))
+        return SInt(r)
+
+    return f
+
+
 def b_str(ip: Any, x: Any = "", *a: Any) -> Any:
     if a:
         if isinstance(x, (SBytes, bytes)):
@@ -1330,6 +1350,16 @@ BUILTINS: dict[Any, Callable[..., Any]] = {
 EXTRA_MODELS: dict[Any, Callable[..., Any]] = {}
 
 
+def _register_checksums() -> None:
+    import binascii
+    import zlib
+
+    EXTRA_MODELS[zlib.crc32] = b_checksum("crc32")
+    EXTRA_MODELS[zlib.adler32] = b_checksum("adler32")
+    if binascii.crc32 is not zlib.crc32:
+        EXTRA_MODELS[binascii.crc32] = b_checksum("b_crc32")
+
+
 def lookup_builtin(f: Any) -> Any:
     try:
         if f in BUILTINS:
@@ -1375,8 +1405,11 @@ def lock_id(v: Any) -> Any:
 
 
 def lock_acquire(ip: Any, v: Any) -> None:
-    held = ip.S.ghost.setdefault("__held__", [])
     lid = lock_id(v)
+    hook = ip.S.handlers.get("Lock.on_acquire")  # a contract's scheduling point: other threads may have run by now
+    if hook is not None:
+        hook(ip.S, lid)
+    held = ip.S.ghost.setdefault("__held__", [])
     if lid in held and not (isinstance(v, SObj) and v.kind == "RLock"):
         ip.S.oblige(f"lock.{lid}.no-self-deadlock", False, kind="lock")
     held.append(lid)
@@ -2440,3 +2473,6 @@ def _m_math_pred(kind: str) -> Any:
 import math as _math_mod
 
 EXTRA_MODELS.update({_math_mod.isfinite: _m_math_pred("isfinite"), _math_mod.isnan: _m_math_pred("isnan"), _math_mod.isinf: _m_math_pred("isinf")})
+
+
+_register_checksums()
